@@ -1,6 +1,6 @@
 // C07 — output is plain valid ECMAScript/TypeScript, or an error was reported.
 import { mulberry32, held, violated, inconclusive, short, optLabel, hashStr } from './lib.mjs';
-import { genModule, ODD_FORMS, advCases, listFixtureInputs, listCorpus, mutate, randomOptions, allOptionCombos } from './fuzz.mjs';
+import { genModule, ODD_FORMS, ODD_TSX, advCases, listFixtureInputs, listCorpus, mutate, randomOptions, allOptionCombos } from './fuzz.mjs';
 
 export const id = 'C07';
 
@@ -19,6 +19,7 @@ export function* workload({ tier, seed, prefix = 'C07' }) {
     yield one(src, 'jsx', opts, `odd|${f.slice(0, 40)}`);
     if (tier !== 'quick' || rng.bool(0.3)) yield one(src, 'tsx', tier === 'quick' ? [{}] : [{}, { optimize: true, resolveType: true }], `odd-tsx|${f.slice(0, 40)}`);
   }
+  for (const f of ODD_TSX) yield one(f, 'tsx', [{ resolveType: true }, { resolveType: true, optimize: true }, {}, { resolveType: true, enableObjectSlots: false, mergeProps: false }], `oddtsx|${f.slice(60, 110)}`);
   // 2. grammar sampler
   const nFuzz = tier === 'quick' ? 25000 : 600000;
   for (let i = 0; i < nFuzz; i++) {
